@@ -71,6 +71,24 @@ def one(C, drv, L, np, n, rp_extra=None):
             ref3 += w * v
         if not (float(out3) == float(ref3)):
             C.issue('not-the-weighted-sum', 'oracle', dict(rp, how='weighted-after-setting-functions'), got=float(out3), reference=float(ref3))
+        # … and edited in place after a first evaluation (the list the object holds is the one it reads)
+        ws3 = list(wf.weights)
+        if ws3:
+            wf.weights[0] = ws3[0] - 3.25
+            ws3[0] = ws3[0] - 3.25
+            out4 = wf.pointer(x)
+            ref4 = 0
+            for w, v in zip(ws3, vals2):
+                ref4 += w * v
+            if not (float(out4) == float(ref4)):
+                C.issue('not-the-weighted-sum', 'oracle', dict(rp, how='weighted-after-editing-weights-in-place'), got=float(out4), reference=float(ref4))
+            wf.functions[0] = L['Function'](pointer=lambda z: 41.5)
+            out5 = wf.pointer(x)
+            ref5 = 0
+            for w, v in zip(ws3, [41.5] + vals2[1:]):
+                ref5 += w * v
+            if not (float(out5) == float(ref5)):
+                C.issue('not-the-weighted-sum', 'oracle', dict(rp, how='weighted-after-editing-functions-in-place'), got=float(out5), reference=float(ref5))
     except Exception as ex:
         C.issue('weighted-raised', 'oracle', dict(rp, how='weighted-after-setters'), error=type(ex).__name__ + ': ' + str(ex)[:80])
     # components that return (views of) their argument: the caller's array must come back untouched and every
